@@ -1,7 +1,13 @@
 import SigModel.Model.QTable
 import Oracle.Util
 /- suite "qtable": qt <maxRunning> <op> <op> ...   op ::= s<qid>f | s<qid>w | p | c<qid> | d<qid> | r<qid>
-   → one token per op: <out>:<#running>:<#waiting>:<chanLen of qid's running object or ->:<cancelled 0/1 or -> ; final blocked flag -/
+   → one token per op: <out>:<#running>:<#waiting>:<chanLen of qid's running object or ->:<cancelled 0/1 or -> ; final blocked flag
+   suite "qlife": ql|qlt <maxRunning> <op> ...   op ::= the above | S<qid>f | S<qid>w (StartQueryAsCoordinator)
+     | R<qid>:<newqid>f | R<qid>:<newqid>w (RestartQuery) | k<qid> (complete) | e<qid> (error)
+     | T (qlt only: every pending timer of a running query fires)
+   → the same tokens (T:<#running>:<#waiting>:-:-), then final=<qid>/<cancelled>/<coord>/<armed>/<sent.sent…>,… W=<qid>/<armed>,…
+     (running entries sorted by qid, the queue in order); "would-block" if a send under a table lock met a full channel.
+     A qid introduced by a restart may be introduced once only and never be started (the engine hands out unique qids). -/
 namespace Oracle.C17
 open SigModel.QTable Oracle
 
@@ -24,6 +30,7 @@ def parseOp (s : String) : Option Op :=
 
 def opQid : Op → Option Nat
   | .start q _ => some q | .cancel q => some q | .delete q => some q | .drain q => some q | .pull => none
+  | .startc q _ => some q | .timeout q => some q | .restart _ nq _ => some nq | .complete q => some q | .error q => some q
 
 def showOut : Out → String | .ok => "ok" | .rejected => "rej" | .noop => "noop"
 
@@ -48,9 +55,95 @@ def qt (args : List String) : String :=
     | _, _ => "bad-op"
   | _ => "bad-op"
 
+/-- an operation of a `ql` line: a model operation, or `T` = all pending timers fire -/
+inductive LOp where
+  | op (o : Op)
+  | fireAll
+
+def parseLOp (s : String) : Option LOp :=
+  let c := s.take 1 |>.toString
+  let rest := s.drop 1 |>.toString
+  match c with
+  | "T" => if rest.isEmpty then some .fireAll else none
+  | "S" =>
+    let n := (rest.dropEnd 1).toString
+    let f := (rest.takeEnd 1).toString
+    match n.toNat?, f with
+    | some q, "f" => some (.op (.startc q true))
+    | some q, "w" => some (.op (.startc q false))
+    | _, _ => none
+  | "R" =>
+    let body := (rest.dropEnd 1).toString
+    let f := (rest.takeEnd 1).toString
+    match body.splitOn ":", f with
+    | [a, b], "f" => match a.toNat?, b.toNat? with
+      | some q, some nq => some (.op (.restart q nq true))
+      | _, _ => none
+    | [a, b], "w" => match a.toNat?, b.toNat? with
+      | some q, some nq => some (.op (.restart q nq false))
+      | _, _ => none
+    | _, _ => none
+  | "k" => rest.toNat?.map (fun q => .op (.complete q))
+  | "e" => rest.toNat?.map (fun q => .op (.error q))
+  | _ => (parseOp s).map .op
+
+/-- the qid whose running object the token reports on -/
+def infoQid : Op → Option Nat
+  | .start q _ => some q | .cancel q => some q | .delete q => some q | .drain q => some q | .pull => none
+  | .startc q _ => some q | .timeout q => some q | .restart _ nq _ => some nq | .complete q => some q | .error q => some q
+
+def startedQids (ops : List LOp) : List Nat :=
+  ops.filterMap (fun o => match o with | .op (.start q _) => some q | .op (.startc q _) => some q | _ => none)
+
+def restartQids (ops : List LOp) : List Nat :=
+  ops.filterMap (fun o => match o with | .op (.restart _ nq _) => some nq | _ => none)
+
+def nodupNat : List Nat → Bool
+  | [] => true
+  | a :: r => !r.contains a && nodupNat r
+
+def b01 (b : Bool) : String := if b then "1" else "0"
+
+def ql (timeouts : Bool) (args : List String) : String :=
+  match args with
+  | m :: ops =>
+    match m.toNat?, ops.mapM parseLOp with
+    | some m, some ops =>
+      let rq := restartQids ops
+      let sq := startedQids ops
+      let hasT := ops.any (fun o => match o with | .fireAll => true | _ => false)
+      if !nodupNat rq || rq.any sq.contains || (hasT && !timeouts) || m == 0 then "bad-op" else
+      let rec go (s : St) (ops : List LOp) (acc : List String) : List String × St :=
+        match ops with
+        | [] => (acc.reverse, s)
+        | .fireAll :: r =>
+          let live := s.running.filterMap (fun (k, v) => if v.timerLive then some k else none)
+          let s' := live.foldl (fun s k => (step s (.timeout k)).1) s
+          go s' r (s!"T:{s'.running.length}:{s'.waiting.length}:-:-" :: acc)
+        | .op op :: r =>
+          let (s', o) := step s op
+          let info := match infoQid op with
+            | none => "-:-"
+            | some q => match lookup q s'.running with
+              | none => "-:-"
+              | some rq => s!"{rq.chanLen}:{if rq.cancelled then 1 else 0}"
+          go s' r (s!"{showOut o}:{s'.running.length}:{s'.waiting.length}:{info}" :: acc)
+      let (toks, s) := go { maxRunning := m } ops []
+      if s.blocked then "would-block" else
+      let run := (s.running.toArray.qsort (fun a b => a.1 < b.1)).toList
+      let fin := run.map (fun (k, v) =>
+        s!"{k}/{b01 v.cancelled}/{b01 v.coord}/{b01 v.timeoutArmed}/{String.intercalate "." (v.sent.map toString)}")
+      let wq := s.waiting.map (fun v => s!"{v.qid}/{b01 v.timeoutArmed}")
+      let dash (l : List String) := if l.isEmpty then "-" else String.intercalate "," l
+      String.intercalate " " toks ++ s!" final={dash fin} W={dash wq}"
+    | _, _ => "bad-op"
+  | _ => "bad-op"
+
 def handle (cmd : String) (args : List String) : Option String :=
   match cmd with
   | "qt" => some (qt args)
+  | "ql" => some (ql false args)
+  | "qlt" => some (ql true args)
   | "parse" => some "ok"   -- exploration suite "parsers": the PEG parsers are not modelled (DESIGN §5 C17)
   | _ => none
 end Oracle.C17
